@@ -203,42 +203,56 @@ def build_node(ns: dict, path: str, built: Built, *, src_toggle=[0]):
             built.shared_fns[shared] = fn
     emit = tuple(ns.get("emit", [])) or None
     wait = tuple(ns.get("wait", [])) or None
+    # half of the nodes are made the way users make them - through the decorators (@node, @ifelse, @route,
+    # @interrupt) - the other half through the node classes; decided by the function identity (stable across rebuilds)
+    deco = fn.__name__ == name and zlib.crc32(("deco:" + fid).encode()) % 2 == 0
     if k == "fn":
         rt.KIND[fid] = "fn"
         if fid not in rt.BEH:
             rt.BEH[fid] = _mk_fn_behaviour(fid, ns)
         outs = ns.get("outs", [])
         output_name = None if not outs else (outs[0] if len(outs) == 1 else tuple(outs))
-        node = FunctionNode(fn, name=name, output_name=output_name, cache=bool(ns.get("cache")), emit=emit, wait_for=wait)
+        if deco:
+            from hypergraph import node as node_deco
+
+            node = node_deco(output_name=output_name, cache=bool(ns.get("cache")), emit=emit, wait_for=wait)(fn)
+        else:
+            node = FunctionNode(fn, name=name, output_name=output_name, cache=bool(ns.get("cache")), emit=emit, wait_for=wait)
     elif k == "ifelse":
         rt.KIND[fid] = "gate"
         rt.BEH[fid] = _mk_gate_behaviour(ns)
         t = END if ns["t"] == END_TOKEN else ns["t"]
         f = END if ns["f"] == END_TOKEN else ns["f"]
-        node = IfElseNode(fn, when_true=t, when_false=f, cache=bool(ns.get("cache")), default_open=ns.get("open", True), name=name, emit=emit, wait_for=wait)
+        if deco:
+            from hypergraph import ifelse as ifelse_deco
+
+            node = ifelse_deco(when_true=t, when_false=f, cache=bool(ns.get("cache")), default_open=ns.get("open", True), name=name, emit=emit, wait_for=wait)(fn)
+        else:
+            node = IfElseNode(fn, when_true=t, when_false=f, cache=bool(ns.get("cache")), default_open=ns.get("open", True), name=name, emit=emit, wait_for=wait)
     elif k == "route":
         rt.KIND[fid] = "gate"
         rt.BEH[fid] = _mk_gate_behaviour(ns)
         targets = [END if t == END_TOKEN else t for t in ns["targets"]]
         fb = ns.get("fallback")
         fb = END if fb == END_TOKEN else fb
-        node = RouteNode(
-            fn,
-            targets=targets,
-            fallback=fb,
-            multi_target=bool(ns.get("multi")),
-            cache=bool(ns.get("cache")),
-            default_open=ns.get("open", True),
-            name=name,
-            emit=emit,
-            wait_for=wait,
-        )
+        rkw = dict(targets=targets, fallback=fb, multi_target=bool(ns.get("multi")), cache=bool(ns.get("cache")), default_open=ns.get("open", True), name=name, emit=emit, wait_for=wait)
+        if deco:
+            from hypergraph import route as route_deco
+
+            node = route_deco(**rkw)(fn)
+        else:
+            node = RouteNode(fn, **rkw)
     elif k == "int":
         rt.KIND[fid] = "int-async" if ns.get("async") else "int"
         rt.BEH[fid] = _mk_int_behaviour(ns)
         outs = ns["outs"]
         output_name = outs[0] if len(outs) == 1 else tuple(outs)
-        node = InterruptNode(fn, name=name, output_name=output_name, emit=emit, wait_for=wait)
+        if deco:
+            from hypergraph import interrupt as interrupt_deco
+
+            node = interrupt_deco(output_name=output_name, emit=emit, wait_for=wait)(fn)
+        else:
+            node = InterruptNode(fn, name=name, output_name=output_name, emit=emit, wait_for=wait)
     else:
         raise ValueError(k)
     built.fids[name] = fid
